@@ -298,6 +298,32 @@ Fixpoint opt_cost (fuel : nat) (rows : list (list Q)) (cols : list nat) : option
 Definition hungarian_opt (C : list (list Q)) : option Q :=
   opt_cost (S (length C)) C (seq 0 (length (hd [] C))).
 
+(* the same reference for cost matrices with infinite entries (None = inf), the contract of the repaired
+   hungarian_matching: the largest possible number of finite-cost pairs, and among those the lowest total
+   cost.  A row may stay unassigned.  Result: (number of pairs, total cost). *)
+Definition better (a b : nat * Q) : nat * Q :=           (* lexicographic: more pairs, then cheaper *)
+  if (fst b <? fst a)%nat then a
+  else if (fst a <? fst b)%nat then b
+  else if Qle_bool (snd a) (snd b) then a else b.
+Fixpoint opt_inf (fuel : nat) (rows : list (list (option Q))) (cols : list nat) : nat * Q :=
+  match fuel with
+  | O => (0%nat, 0)
+  | S f =>
+      match rows with
+      | [] => (0%nat, 0)
+      | r :: rest =>
+          fold_left better
+            (flat_map (fun ct =>
+                         match nth (fst ct) r None with
+                         | Some v => let '(n, c) := opt_inf f rest (snd ct) in [(S n, v + c)]
+                         | None => []
+                         end) (picks cols))
+            (opt_inf f rest cols)
+      end
+  end.
+Definition hungarian_opt_inf (C : list (list (option Q))) : nat * Q :=
+  opt_inf (S (length C)) C (seq 0 (length (hd [] C))).
+
 (* ---- entry points for the correspondence harness ---- *)
 Inductive case :=
 | COks (fixed_F22 : bool) (n_ed n_nodes : nat) (gts prs : list pose) (sc : scspec) (sd : sdspec) (coco : bool)
@@ -305,6 +331,7 @@ Inductive case :=
 | CMatch (fixed_F51 : bool) (n_gt : nat) (scores : list Q) (M : smatrix) (thr : Q)
 | CGreedy (C : smatrix)
 | CHung (C : list (list Q))
+| CHungInf (C : smatrix)
 | CIou (a b : box)
 | CCos (a b : list Q)
 | CEuc (a b : list Q).
@@ -315,6 +342,7 @@ Inductive result :=
 | RMatch (r : option (list mpair * list nat))
 | RGreedy (r : list (nat * nat))
 | RHung (r : option Q)
+| RHungInf (r : nat * Q)
 | RIou (r : Q * Q)
 | RCos (r : Q * Q * Q)
 | REuc (r : Q).
@@ -326,6 +354,7 @@ Definition run (c : case) : result :=
   | CMatch f n s M t => RMatch (match_instances f n s M t)
   | CGreedy C => RGreedy (greedy_matching C)
   | CHung C => RHung (hungarian_opt C)
+  | CHungInf C => RHungInf (hungarian_opt_inf C)
   | CIou a b => RIou (iou_parts a b)
   | CCos a b => RCos (cosine_parts a b)
   | CEuc a b => REuc (sqdist a b)
@@ -339,6 +368,7 @@ Definition rresult (r : result) : rdr :=
   | RMatch r => ropt (rpair (rlist (rtriple rnat rnat rQ)) (rlist rnat)) r
   | RGreedy r => rlist (rpair rnat rnat) r
   | RHung r => ropt rQ r
+  | RHungInf r => rpair rnat rQ r
   | RIou r => rpair rQ rQ r
   | RCos r => rtriple rQ rQ rQ r
   | REuc r => rQ r
